@@ -28,6 +28,7 @@ def genCfg : Cfg :=
     wspPlayChecks := decide (Gen.skel_wspCheckPermission = Expected.skel_wspCheckPermission) &&
                      decide (Gen.skel_wspOnDescribe = Expected.skel_wspOnDescribe) &&
                      decide (Gen.skel_wspOnPlay = Expected.skel_wspOnPlay)
+    identityReplaces := decide (Gen.skel_authInterceptor = Expected.skel_authInterceptor)
     accessTTL := Gen.accessTTL
     refreshTTL := Gen.refreshTTL
     noAuth := Gen.noAuthRequired.map String.toList
